@@ -639,6 +639,7 @@ package service
 //@ func timedCopy
 //@   props C03 C14 C16 C18
 //@   requires clientAddr != nil && clientConn != nil && validNatconn(targetConn) && l != nil
+//@   loop 1 invariant !expired && len(pkt) == serverUDPBufferSize && saltSize == pure("shadowsocks.(*EncryptionKey).SaltSize", targetConn.cryptoKey) && bodyStart == saltSize + maxAddrLen
 //@   trace[C16,one-report-per-reply] loop 1 exactly 1 service.UDPConnMetrics.AddPacketFromTarget
 //@   trace[C16,expiry-is-not-a-datagram] never service.UDPConnMetrics.AddPacketFromTarget
 //@   trace[C16,report-sizes] loop 1 each service.UDPConnMetrics.AddPacketFromTarget satisfies $recv == targetConn.metrics && $arg1 == bodyLen && $arg2 == proxyClientBytes
@@ -649,7 +650,7 @@ package service
 //@ func timedCopy$1
 //@   props C03 C04 C16 C18
 //@   requires clientAddr != nil && clientConn != nil && validNatconn(targetConn) && l != nil
-//@   requires len(pkt) == serverUDPBufferSize
+//@   requires len(pkt) == serverUDPBufferSize && !expired
 //@   requires saltSize == pure("shadowsocks.(*EncryptionKey).SaltSize", targetConn.cryptoKey) && bodyStart == saltSize + maxAddrLen
 //@   trace[C03,reads-into-body-area] each service.(*natconn).ReadFrom satisfies $arg0 == targetConn && $arg1.$arr == pkt.$arr && $arg1.$off == pkt.$off + bodyStart && len($arg1) == len(pkt) - bodyStart
 //@   trace[C16,body-size-is-bytes-read] each service.(*natconn).ReadFrom satisfies bodyLen == $res0
